@@ -196,6 +196,24 @@ template <class G> struct Invalid {
                 if constexpr (T::fam == PLAIN && T::labelled) {
                     reject("setEdgeLabel(absent)", "setEdgeLabel" + pr + " unforced on an absent edge", THROW_INVALID_ARGUMENT, [&](G &g) { g.setEdgeLabel(i, j, LabelAlpha<L>::value(1)); });
                     reject("getEdgeLabel(absent)", "getEdgeLabel" + pr + " on an absent edge", THROW_INVALID_ARGUMENT, [&](G &g) { (void)g.getEdgeLabel(i, j); });
+                    // setEdgeLabel(..., force=true) is documented to store a label even though the edge does not exist; the
+                    // edge still does not exist afterwards, so the UNFORCED call must still be rejected and change nothing
+                    {
+                        ++g_calls;
+                        g_entryPoints.insert("setEdgeLabel(absent, label stored by a forced call)");
+                        breadcrumb("C07 state " + m.str() + " forced then unforced setEdgeLabel" + pr);
+                        G o(orig);
+                        o.setEdgeLabel(i, j, LabelAlpha<L>::value(2), true);
+                        G before(o);
+                        const std::string kb = keyOf(before, true);
+                        Outcome got = OK;
+                        try { o.setEdgeLabel(i, j, LabelAlpha<L>::value(1)); } catch (...) { got = classifyCurrentException(); }
+                        ++sink.evaluated;
+                        if (got != THROW_INVALID_ARGUMENT)
+                            sink.fail("rejected.setEdgeLabel(absent)", "setEdgeLabel" + pr + " unforced on an absent edge, after setEdgeLabel" + pr + " with force=true, on " + m.str() + ": " + outcomeName(got) + ", expected " + outcomeName(THROW_INVALID_ARGUMENT));
+                        else if (keyOf(o, true) != kb || !(o == before) || !(before == o))
+                            sink.fail("unchanged.setEdgeLabel(absent)", "the rejected setEdgeLabel" + pr + " (after a forced one) changed the graph " + m.str());
+                    }
                 }
                 if constexpr (T::fam == WEIGHTED)
                     reject("getEdgeWeight(absent)", "getEdgeWeight" + pr + " on an absent edge", THROW_INVALID_ARGUMENT, [&](G &g) { (void)g.getEdgeWeight(i, j); });
